@@ -28,7 +28,7 @@ namespace BitSerializer
 			// Resize container when is known approximate size
 			if (const auto estimatedSize = archive.GetEstimatedSize(); estimatedSize != 0)
 			{
-				cont.resize(estimatedSize);
+				cont.resize(Detail::LimitPreallocatedSize<bool>(estimatedSize));
 			}
 
 			// Load existing items
